@@ -36,7 +36,8 @@ WK_FEATS = {"temp": 1, "fl1_max": 2, "fl2_max": 3, "fl3_max": 4,
             "frame": 9, "area_um": 10, "deform": 11, "fl1_max_ctc": 12,
             "fl2_max_ctc": 13, "fl3_max_ctc": 14, "ml_score_abc": 15,
             "ml_score_xyz": 16, "image": 17, "image_bg": 18, "mask": 19,
-            "bright_bc_avg": 20}
+            "bright_bc_avg": 20, "contour": 21, "volume": 22, "pos_x": 23,
+            "pos_y": 24}
 WK_KEYS = {("calculation", "emodulus lut"): 1,
            ("calculation", "emodulus medium"): 2,
            ("calculation", "emodulus temperature"): 3,
